@@ -50,7 +50,7 @@ class BulkOutSpec(Spec):
         super().__init__(cfg, tier)
         self.mps, self.cap = cfg["mps"], cfg["buf"]
         self.max_depth = cfg["depth"]
-        self.time_budget = 150 if tier == "quick" else 840
+        self.time_budget = 600 if tier == "quick" else 1800
         self.host = StreamHost(self._decode, gap=cfg["gap"], pace=cfg["pace"], extra=dict(connect=1))
         h = self.host
         self.t_tok = h.event_cycles_no_response(3)
